@@ -1,7 +1,10 @@
 //! C16 correspondence harness: the real `HttpSymbolSupplier` against a scripted loopback
 //! HTTP/1.1 server (tokio TcpListener, one request per connection).
 //!
-//! Case line (space separated):
+//! Case line (space separated); an optional first token kB | kD selects HttpSymbolSupplier::locate_file
+//! for FileKind::Binary | ExtraDebugInfo instead of locate_symbols; <df> or <id> may be N (absent: the
+//! code-info redirect lookup is tried first; requests without a query are then answered 302 + Location when
+//! the server script has a 6th field J<hex location>, else 404):
 //!   <df> <id> <cf> <ci>      debug_file (hex), debug id (breakpad text), code_file (hex), code id text
 //!   <pre>                    pre-existing object at the cache path: - | F<hex> | D (a directory)
 //!   <nloc> <loc>*            local symbol directories searched before the cache: - (no file) | F<hex>
@@ -24,7 +27,7 @@
 //!   result: OK:<nfuncs>:<npublics>:<url hex|N>:<table crc> | E:NotFound | E:Parse | E:Load | E:Missing | DROPPED
 //!   request log: <server>:<hex of request target> joined by ','
 //!   tree: <relative path hex>:<len>:<crc32 of content, port numbers canonicalised> joined by ','
-use breakpad_symbols::{HttpSymbolSupplier, SimpleModule, SymbolError, SymbolFile, SymbolSupplier};
+use breakpad_symbols::{FileKind, HttpSymbolSupplier, SimpleModule, SymbolError, SymbolFile, SymbolSupplier};
 use debugid::{CodeId, DebugId};
 use std::future::Future;
 use std::path::{Path, PathBuf};
@@ -69,6 +72,7 @@ struct Script {
     cut: Cut,
     race: Option<Vec<u8>>,
     body: Vec<u8>,
+    redirect: Option<String>,
 }
 
 fn offs(s: &str) -> Vec<usize> {
@@ -81,7 +85,7 @@ fn offs(s: &str) -> Vec<usize> {
 
 fn parse_script(s: &str) -> Script {
     let p: Vec<&str> = s.split(';').collect();
-    assert!(p.len() == 5, "server script");
+    assert!(p.len() == 5 || p.len() == 6, "server script");
     let framing = match &p[1][..1] {
         "L" => Framing::Len(offs(&p[1][1..])),
         "K" => Framing::Chunked(offs(&p[1][1..])),
@@ -102,13 +106,15 @@ fn parse_script(s: &str) -> Script {
         }
     };
     let race = if p[3] == "-" { None } else { Some(unhex(&p[3][1..])) };
-    Script { status: p[0].parse().expect("status"), framing, cut, race, body: unhex(p[4]) }
+    let redirect = if p.len() == 6 { Some(String::from_utf8(unhex(&p[5][1..])).expect("utf8")) } else { None };
+    Script { status: p[0].parse().expect("status"), framing, cut, race, body: unhex(p[4]), redirect }
 }
 
 struct Shared {
     off: AtomicBool,
     log: Mutex<Vec<(usize, String)>>,
     race_path: PathBuf,
+    code_info: bool,
 }
 
 fn reason(status: u32) -> &'static str {
@@ -157,7 +163,17 @@ async fn serve_conn(mut sock: TcpStream, idx: usize, script: Script, sh: Arc<Sha
     let first = head.split(|&b| b == b'\r').next().unwrap_or(&[]);
     let first = String::from_utf8_lossy(first).to_string();
     let target = first.split(' ').nth(1).unwrap_or("").to_string();
-    sh.log.lock().unwrap().push((idx, target));
+    sh.log.lock().unwrap().push((idx, target.clone()));
+    if sh.code_info && !target.contains('?') {
+        // code-info lookup (<code_file>/<code_id>/<code_file>.sym, no query): redirect or 404
+        let resp = match &script.redirect {
+            Some(loc) => format!("HTTP/1.1 302 Found\r\nLocation: {}\r\nContent-Length: 0\r\nConnection: close\r\n\r\n", loc),
+            None => "HTTP/1.1 404 Not Found\r\nContent-Length: 0\r\nConnection: close\r\n\r\n".to_string(),
+        };
+        sock.write_all(resp.as_bytes()).await?;
+        sock.shutdown().await?;
+        return Ok(());
+    }
     if sh.off.load(Ordering::SeqCst) {
         sock.write_all(b"HTTP/1.1 404 Not Found\r\nContent-Length: 0\r\nConnection: close\r\n\r\n").await?;
         sock.shutdown().await?;
@@ -405,7 +421,11 @@ fn result_text(r: &Result<breakpad_symbols::LocateSymbolsResult, SymbolError>, p
                 None => "N".into(),
             };
             let nf = s.functions.ranges_values().count();
-            format!("OK:{}:{}:{}:{}", nf, s.publics.len(), url, table_digest(s))
+            let extra = match &l.extra_debug_info {
+                Some(e) => format!(":x{}", hex(format!("{} {}", e.debug_file, e.debug_identifier.breakpad()).as_bytes())),
+                None => String::new(),
+            };
+            format!("OK:{}:{}:{}:{}{}", nf, s.publics.len(), url, table_digest(s), extra)
         }
         Err(SymbolError::NotFound) => "E:NotFound".into(),
         Err(SymbolError::ParseError(..)) => "E:Parse".into(),
@@ -414,9 +434,23 @@ fn result_text(r: &Result<breakpad_symbols::LocateSymbolsResult, SymbolError>, p
     }
 }
 
+async fn do_lookup(s: &HttpSymbolSupplier, m: &SimpleModule, kind: Option<FileKind>, ports: &[u16], cache: &Path) -> String {
+    match kind {
+        None => result_text(&s.locate_symbols(m).await, ports),
+        Some(k) => match s.locate_file(m, k).await {
+            Ok(p) => match p.strip_prefix(cache) {
+                Ok(rel) => format!("OK:{}", hex(rel.to_string_lossy().as_bytes())),
+                Err(_) => format!("OK:L{}", hex(p.file_name().map(|n| n.to_string_lossy().to_string()).unwrap_or_default().as_bytes())),
+            },
+            Err(_) => "E:NotFound".into(),
+        },
+    }
+}
+
 struct Case {
-    df: String,
-    id: String,
+    kind: Option<FileKind>,
+    df: Option<String>,
+    id: Option<String>,
     cf: String,
     ci: String,
     pre: String,
@@ -429,8 +463,20 @@ struct Case {
 
 fn parse_case(line: &str) -> Case {
     let mut t = Toks::new(line);
-    let df = String::from_utf8(unhex(t.str())).expect("utf8");
-    let id = t.str().to_string();
+    let mut first = t.str();
+    let kind = match first {
+        "kB" => Some(FileKind::Binary),
+        "kD" => Some(FileKind::ExtraDebugInfo),
+        _ => None,
+    };
+    if kind.is_some() {
+        first = t.str();
+    }
+    let df = if first == "N" { None } else { Some(String::from_utf8(unhex(first)).expect("utf8")) };
+    let id = match t.str() {
+        "N" => None,
+        x => Some(x.to_string()),
+    };
     let cf = String::from_utf8(unhex(t.str())).expect("utf8");
     let ci = t.str().to_string();
     let pre = t.str().to_string();
@@ -444,7 +490,7 @@ fn parse_case(line: &str) -> Case {
     let tmo = t.u64();
     let ns = t.usize();
     let servers = (0..ns).map(|_| parse_script(t.str())).collect();
-    Case { df, id, cf, ci, pre, locs, env, drop, tmo, servers }
+    Case { kind, df, id, cf, ci, pre, locs, env, drop, tmo, servers }
 }
 
 static COUNTER: AtomicUsize = AtomicUsize::new(0);
@@ -457,11 +503,30 @@ struct Dirs {
     rel: PathBuf,
 }
 
+fn make_module(c: &Case) -> SimpleModule {
+    SimpleModule::from_basic_info(
+        c.df.clone(),
+        c.id.as_ref().map(|i| DebugId::from_breakpad(i).expect("debug id")),
+        Some(c.cf.clone()),
+        if c.ci == "N" { None } else { Some(CodeId::new(c.ci.clone())) },
+    )
+}
+
 fn rel_path(c: &Case) -> PathBuf {
-    // <debug_file>/<ID>/<debug_file with .sym>; the oracle recomputes this independently
-    let leaf = c.df.rsplit(['/', '\\']).next().unwrap().to_string();
-    let stem = if leaf.to_lowercase().ends_with(".pdb") { leaf[..leaf.len() - 4].to_string() } else { leaf.clone() };
-    PathBuf::from(&leaf).join(&c.id).join(format!("{}.sym", stem))
+    match (c.kind, &c.df, &c.id) {
+        (None, Some(df), Some(id)) => {
+            // <debug_file>/<ID>/<debug_file with .sym>; the oracle recomputes this independently
+            let leaf = df.rsplit(['/', '\\']).next().unwrap().to_string();
+            let stem = if leaf.to_lowercase().ends_with(".pdb") { leaf[..leaf.len() - 4].to_string() } else { leaf.clone() };
+            PathBuf::from(&leaf).join(id).join(format!("{}.sym", stem))
+        }
+        (Some(k), _, _) => match breakpad_symbols::lookup(&make_module(c), k) {
+            // where a pre-existing binary / debug file is planted: the code's own lookup path
+            Some(l) => PathBuf::from(l.cache_rel),
+            None => PathBuf::from("no-lookup-path"),
+        },
+        _ => PathBuf::from("no-debug-info"),
+    }
 }
 
 fn setup_dirs(c: &Case) -> Dirs {
@@ -524,6 +589,7 @@ fn scenario(c: &Case, drop_at: Option<usize>) -> (String, String, usize, bool, u
             off: AtomicBool::new(false),
             log: Mutex::new(Vec::new()),
             race_path: d.cache.join(&d.rel),
+            code_info: c.kind.is_none() && (c.df.is_none() || c.id.is_none()),
         });
         let mut ports = Vec::new();
         let mut handles = Vec::new();
@@ -533,12 +599,7 @@ fn scenario(c: &Case, drop_at: Option<usize>) -> (String, String, usize, bool, u
             handles.push(h);
         }
         let urls: Vec<String> = ports.iter().map(|p| format!("http://127.0.0.1:{}/", p)).collect();
-        let module = SimpleModule::from_basic_info(
-            Some(c.df.clone()),
-            Some(DebugId::from_breakpad(&c.id).expect("debug id")),
-            Some(c.cf.clone()),
-            if c.ci == "N" { None } else { Some(CodeId::new(c.ci.clone())) },
-        );
+        let module = make_module(c);
         let block = |r: String, sh: &Shared| {
             let log: Vec<String> = sh.log.lock().unwrap().drain(..).map(|(i, t)| format!("{}:{}", i, hex(t.as_bytes()))).collect();
             let leaf = d.cache.join(&d.rel);
@@ -561,13 +622,13 @@ fn scenario(c: &Case, drop_at: Option<usize>) -> (String, String, usize, bool, u
             if wlim.is_some() {
                 set_fsize(wlim);
             }
-            let fut = supplier.locate_symbols(&module);
+            let fut = do_lookup(&supplier, &module, c.kind, &ports, &d.cache);
             let r = DropAfter { fut: Some(Box::pin(fut)), left: drop_at, polls: polls.clone(), probe: d.tmp.clone(), inflight: inflight.clone() }.await;
             if wlim.is_some() {
                 set_fsize(None);
             }
             match r {
-                Some(res) => (block(result_text(&res, &ports), &sh), false),
+                Some(res) => (block(res, &sh), false),
                 None => (block("DROPPED".into(), &sh), true),
             }
         };
@@ -575,8 +636,8 @@ fn scenario(c: &Case, drop_at: Option<usize>) -> (String, String, usize, bool, u
         sh.off.store(true, Ordering::SeqCst);
         let b = {
             let supplier = HttpSymbolSupplier::new(urls.clone(), d.cache.clone(), d.tmp.clone(), d.locals.clone(), Duration::from_millis(c.tmo));
-            let res = supplier.locate_symbols(&module).await;
-            block(result_text(&res, &ports), &sh)
+            let res = do_lookup(&supplier, &module, c.kind, &ports, &d.cache).await;
+            block(res, &sh)
         };
         for h in handles {
             h.abort();
